@@ -17,6 +17,12 @@ Strata (all boundary-directed, see the `*_sized`, `*_far`, `*_second_use` functi
                               middle +-1 / last-1 / last and with absent keys below, between and above
   far index                   insert_at / get / remove_at at every power of two and its neighbours (up to 1025, thorough
                               2049) on lists of 0, 1, 3, idx/2 and idx-2 elements
+  receiving lists             get_keys / get_values / get_pairs handed a list of each of the three classes that already holds
+                              0, 1, 2, 3, 5 objects: ideal result  old ++ keys  (`map_receiving`, also inside random histories)
+  depth                       (`run_depth`, implementation-side oracle, no model) containers of 10^5 and 4*10^5 (thorough 10^6)
+                              elements built the O(1)-per-step way of the class, then every scenario the C code could answer by
+                              recursing along the chain; ASan build and a plain -O0 build under the default 8 MB stack; plus the
+                              stack high-water mark of every scenario at 1000 and 3000 elements, which must not grow
 """
 import itertools, os, re, time
 import vlib
@@ -76,7 +82,16 @@ class ContCheck(vlib.PropertyCheck):
 
     def nontrivial(self, case, mout):
         # at least one operation left the container non-empty (an insertion succeeded)
+        if is_deep(case):
+            return not case.split(' ')[2].startswith('deep:0')
         return re.search(r'\bn=[1-9]', mout) is not None
+
+    def oracle(self, case, iout):
+        # depth stratum: the harness checks the results itself, a correct class prints `ok` for every scenario
+        if is_deep(case):
+            bad = deep_failure(case, iout)
+            return ('depth stratum: scenario `%s`: %s' % bad) if bad else None
+        return None
 
     def extra_steps(self, ctx):
         # operation histogram by interface.operation instead of by first token
@@ -96,15 +111,22 @@ class ContCheck(vlib.PropertyCheck):
         # Each runs the histories of its class through its own extracted model with the structure
         # dump enabled (LV_CONT_B=1) and returns [(level, case, message)] for every disagreement.
         extra = []
-        import importlib
-        for cls in ('array', 'linked_list', 'dlinked_list'):
-            try:
-                tie = importlib.import_module('cont_%s_tie' % cls)
-            except ImportError:
-                continue
-            extra += tie.run(self, ctx, [c for c in cases if c.split(' ')[1] == cls])
-            ctx['cov'].setdefault('class_models', []).append(cls)
-        return extra
+        import importlib, threading
+        # the depth stratum (plain build + big containers) runs beside the class ties
+        depth_out = []
+        dt = threading.Thread(target=lambda: depth_out.extend(run_depth(self, ctx, [c for c in cases if is_deep(c)])))
+        dt.start()
+        try:
+            for cls in ('array', 'linked_list', 'dlinked_list'):
+                try:
+                    tie = importlib.import_module('cont_%s_tie' % cls)
+                except ImportError:
+                    continue
+                extra += tie.run(self, ctx, [c for c in cases if c.split(' ')[1] == cls])
+                ctx['cov'].setdefault('class_models', []).append(cls)
+        finally:
+            dt.join()
+        return depth_out + extra
 
 
 # ---------------------------------------------------------------------------------------------
@@ -122,6 +144,8 @@ def tie_affordable(case):
     t = case.split(' ')
     if len(t) != 3:
         return True
+    if t[2].startswith('deep:'):
+        return False            # depth stratum: implementation-side oracle only
     lim = TIE_LIMIT.get((t[0], t[1]), TIE_LIMIT_DEFAULT)
     if t[2].count(';') + 1 > lim + 40:
         return False
@@ -175,6 +199,219 @@ def run_model_sliced(exe, cases, work, tag, nslices=8, timeout=1500):
                 except OSError:
                     pass
     return outs
+
+
+# ---------------------------------------------------------------------------------------------
+# DEPTH stratum: containers of 10^4 .. 10^6 elements, implementation-side oracle (harness/cont.c, `deep:N`)
+# ---------------------------------------------------------------------------------------------
+# Every scenario the C code could answer by recursing along the chain or by walking all of it: dup (list,
+# vector, map forms), reverse, to_array, a full iterator sweep, find / index / remove / insert that land at the
+# very end, get_keys / values / pairs, deletion.  Run under the ASan build AND a plain -O0 build (no sanitizer),
+# both with the default 8 MB stack; a crash, a timeout or a wrong result is a level-A failure whose replay is
+# `iface class deep:N;scenario`.
+DEEP_SCEN = {
+    'list': ['get', 'iterate', 'to_array', 'dup', 'reverse', 'find_last', 'remove_last', 'remove_at_last', 'insert_last'],
+    'vector': ['iterate', 'to_array', 'dup', 'find_last', 'insert_last', 'remove_last'],
+    'map': ['iterate', 'get_keys', 'get_values', 'get_pairs', 'get_keys_into', 'get_values_into', 'get_pairs_into', 'dup',
+            'get_last', 'set_last', 'remove_last'],
+}
+STK_SIZES = (1000, 3000)        # stack high-water marks are compared between these two sizes
+STK_MIN_SLOPE = 8               # bytes per element that count as growth (the smallest frame is 16 bytes)
+STACK_BYTES = 8 << 20
+
+
+def is_deep(case):
+    t = case.split(' ')
+    return len(t) == 3 and t[2].startswith('deep:')
+
+
+def deep_sizes(tier, iface, cls, build):
+    """sizes by interface, class and build.  O(1) per build step exists for: list (array append - but ASan's realloc
+    copies, so the block grows quadratically there -, linked_list prepend, dlinked_list append) and vector of the two
+    linked classes (descending / ascending inserts); the array vector pays one memmove per insert, every map set
+    probes the whole map first (all three classes)."""
+    quick = tier == 'quick'
+    big = [100000, 400000] if quick else [100000, 400000, 1000000]
+    if iface == 'map':
+        return [4000] if quick else [12000]
+    if cls == 'array':
+        if build == 'asan':
+            return [10000] if quick else [20000]
+        return big if iface == 'list' else ([100000] if quick else [200000])
+    return big
+
+
+def deep_case(iface, cls, n, scen=None):
+    return '%s %s deep:%d%s' % (iface, cls, n, ''.join(';' + x for x in (DEEP_SCEN[iface] if scen is None else scen)))
+
+
+def deep_verdicts(case, out):
+    """[(name, verdict, stk)] of a depth result line, or None if it is malformed; the ideal is `ok` everywhere"""
+    if out is None:
+        return None
+    res = []
+    for st in out.split(' ; '):
+        if st == 'end':
+            continue
+        name, eq, rest = st.partition('=')
+        if not eq:
+            return None
+        v, _, b = rest.partition('|')
+        stk = int(b[4:]) if b.startswith('stk=') and b[4:].isdigit() else None
+        res.append((name, v, stk))
+    return res
+
+
+def deep_failure(case, out):
+    """None if the line is what a correct class prints, else (scenario, what)"""
+    names = ['build'] + case.split(' ')[2].split(';')[1:] + ['del']
+    vs = deep_verdicts(case, out)
+    if vs is None:
+        return (names[0], 'no output')
+    for k, name in enumerate(names):
+        if k >= len(vs):
+            return (name, 'missing (the run ended in `%s`)' % (out[-60:],))
+        if vs[k][0] != name:
+            return (name, 'malformed output `%s`' % out[:80])
+        if vs[k][1] != 'ok':
+            return (name, vs[k][1])
+    if not out.endswith('end'):
+        return ('del', 'no end marker: `%s`' % out[-60:])
+    return None
+
+
+def _run_harness(exe, cases, work, tag, env=None):
+    path = os.path.join(work, 'cases-%s-%d.txt' % (tag, os.getpid()))
+    with open(path, 'w') as f:
+        for c in cases:
+            f.write(c + '\n')
+    try:
+        e = {'LV_CONT_STK': '1'}
+        if env:
+            e.update(env)
+        outs, det = vlib.run_cases(exe, path, len(cases), env=e, timeout_per_run=1500)
+    finally:
+        try:
+            os.remove(path)
+        except OSError:
+            pass
+    return outs
+
+
+def run_depth(chk, ctx, corpus_deep):
+    """the depth stratum of one interface on all three classes; returns [(level, case, msg)]"""
+    import shutil, subprocess, threading
+    t0 = time.time()
+    iface = {'C02': 'list', 'C03': 'map', 'C04': 'vector'}[chk.id]
+    tier = ctx['tier']
+    work = os.path.join(vlib.BUILD, 'work', chk.id.lower())
+    os.makedirs(work, exist_ok=True)
+    key = '%s-plain' % getattr(chk, 'runkey', chk.id.lower())
+    out = []
+    cov = dict(stack_limit_kb=subprocess.run('ulimit -s', shell=True, stdout=subprocess.PIPE).stdout.decode().strip(),
+               stack_limit_note='the harness lowers the soft limit to 8192 kB when the environment allows more',
+               builds=dict(asan='gcc -O1 -fsanitize=address,undefined (the build of the correspondence check)',
+                           plain='gcc -O0, no sanitizer'),
+               scenarios=DEEP_SCEN[iface], sizes={}, per_case_timeout_s='60 (120 above 500 000 elements)')
+    ctx['cov']['depth_stratum'] = cov
+    try:
+        plain, log = vlib.build_impl(key, os.path.join(vlib.VERIF, 'harness', chk.harness), sanitize=False, opt='-O0')
+        if plain is None:
+            return [('B', deep_case(iface, 'array', 0, []), 'plain (-O0, no sanitizer) build of the harness failed: %s' % log[-300:])]
+        exes = dict(asan=ctx['impl_exe'], plain=plain)
+        plan = {}
+        for build in ('asan', 'plain'):
+            cs = []
+            for cls in CLASSES:
+                sizes = deep_sizes(tier, iface, cls, build)
+                cov['sizes']['%s/%s' % (cls, build)] = sizes
+                cs += [deep_case(iface, cls, n) for n in sizes]
+                # stack use must not grow with the size
+                cs += [deep_case(iface, cls, n) for n in STK_SIZES]
+            # corpus cases of the stratum ran under ASan in the main pass already
+            plan[build] = cs + (list(corpus_deep) if build == 'plain' else [])
+        res = {}
+
+        def job(build):
+            res[build] = _run_harness(exes[build], plan[build], work, 'depth-' + build)
+        th = [threading.Thread(target=job, args=(b,)) for b in plan]
+        for t in th:
+            t.start()
+        for t in th:
+            t.join()
+        cov['cases'] = sum(len(v) for v in plan.values())
+        fails = 0
+        for build in ('asan', 'plain'):
+            for c, o in zip(plan[build], res[build]):
+                bad = deep_failure(c, o)
+                if not bad:
+                    continue
+                fails += 1
+                t = c.split(' ')
+                n = int(t[2].split(';')[0][5:])
+                # minimise: the build and the one scenario
+                small = deep_case(t[0], t[1], n, [] if bad[0] in ('build', 'del') else [bad[0]])
+                if small != c:
+                    o2 = _run_harness(exes[build], [small], work, 'depth-min-' + build)[0]
+                    bad2 = deep_failure(small, o2)
+                    if bad2:
+                        c, bad = small, bad2
+                out.append(('A', c, 'depth stratum, %s build: %s of class %s with %d elements, scenario `%s`: %s (every scenario of a correct class '
+                            'prints ok: count, first/middle/last element, order and identity are checked against the harness\'s own array)'
+                            % (build, t[0], t[1], n, bad[0], bad[1])))
+        # stack growth between the two small sizes
+        grow = []
+        max_delta = 0
+        for build in ('asan', 'plain'):
+            by = {}
+            for c, o in zip(plan[build], res[build]):
+                t = c.split(' ')
+                n = int(t[2].split(';')[0][5:])
+                if n in STK_SIZES and not deep_failure(c, o):
+                    by[(t[1], n)] = dict((name, stk) for (name, v, stk) in deep_verdicts(c, o))
+            for cls in CLASSES:
+                a, b = by.get((cls, STK_SIZES[0])), by.get((cls, STK_SIZES[1]))
+                if not a or not b:
+                    continue
+                for name in DEEP_SCEN[iface] + ['del']:
+                    if a.get(name) is None or b.get(name) is None:
+                        continue
+                    d = b[name] - a[name]
+                    max_delta = max(max_delta, d)
+                    slope = d / float(STK_SIZES[1] - STK_SIZES[0])
+                    if slope >= STK_MIN_SLOPE or b[name] >= 512 * 1024:
+                        grow.append((build, cls, name, a[name], b[name], slope))
+        cov['stack_growth'] = dict(sizes=list(STK_SIZES), largest_difference_bytes=max_delta, threshold_bytes_per_element=STK_MIN_SLOPE,
+                                   scenarios_that_grow=['%s/%s/%s' % g[:3] for g in grow])
+        seen = set()
+        for (build, cls, name, s0, s1, slope) in sorted(grow, key=lambda g: -g[5]):
+            if (cls, name) in seen:
+                continue
+            seen.add((cls, name))
+            if any(lv == 'A' and cc.split(' ')[1] == cls and name in cc for (lv, cc, _) in out):
+                continue        # already a concrete crash
+            scen = [] if name == 'del' else [name]
+            msg = ('stack use of scenario `%s` on a %s of class %s grows with the container: %d bytes with %d elements, %d with %d (%s build), '
+                   'about %.0f bytes per element - a recursion per element' % (name, iface, cls, s0, STK_SIZES[0], s1, STK_SIZES[1], build, slope))
+            # the size at which the default stack overflows; confirmed by a run where the build of such a container is affordable
+            need = int(1.3 * STACK_BYTES / max(slope, 1.0) / 1000 + 1) * 1000 if slope >= STK_MIN_SLOPE else None
+            cap = 20000 if iface == 'map' else (4000000 if (cls != 'array' or (iface == 'list' and build == 'plain')) else 20000)
+            if need and need <= cap:
+                c = deep_case(iface, cls, need, scen)
+                o = _run_harness(exes[build], [c], work, 'depth-confirm-' + build)[0]
+                bad = deep_failure(c, o)
+                if bad:
+                    out.append(('A', c, 'depth stratum, %s build: %s; with %d elements scenario `%s` ends in %s' % (build, msg, need, bad[0], bad[1])))
+                    continue
+            out.append(('B', deep_case(iface, cls, STK_SIZES[1], scen),
+                        msg + ('; overflow of the default 8 MB stack predicted near %d elements, not confirmed by a run (%s)'
+                               % (need, 'a container of that size cannot be built through this interface in reasonable time'
+                                  if need and need > cap else 'the run at that size passed') if need else '')))
+        cov['failures'] = fails
+    finally:
+        shutil.rmtree(os.path.join(vlib.BUILD, 'impl', key), ignore_errors=True)
+        cov['wall_s'] = round(time.time() - t0, 2)
+    return out
 
 
 def all_classes(iface, ops):
@@ -668,15 +905,37 @@ def map_history(rng, maxops=25, keys=KEYS4):
             ops.append('has_value:' + rng.choice(VALS))
         else:
             ops.append(rng.choice(['count', 'get_keys', 'get_values', 'get_pairs', 'iterate', 'newpair',
-                                   rng.choice(['get_keys_into:', 'get_values_into:', 'get_pairs_into:']) + rng.choice('ALD')]))
+                                   rng.choice(['get_keys_into:', 'get_values_into:', 'get_pairs_into:']) + rng.choice('ALD'),
+                                   into_op(rng)]))
     return with_second_use(ops[:max(nops, 1)], rng, 0.25)
+
+
+RECEIVING = (0, 1, 2, 3, 5)      # number of objects the caller's list already holds when it is handed to get_keys / values / pairs
+
+
+def into_op(rng):
+    return '%s:%s:%d' % (rng.choice(['get_keys_into', 'get_values_into', 'get_pairs_into']), rng.choice('ALD'), rng.choice(RECEIVING))
+
+
+def map_receiving():
+    """get_keys / get_values / get_pairs with a caller-supplied receiving list of each of the three list classes that
+    already holds 0, 1, 2, 3 or 5 objects, on maps of 0..3 and 40 entries: the ideal result is  old ++ keys  (what the list
+    held stays in front, in its order), and a second call keeps appending"""
+    out = []
+    prefixes = [[], ['set:a:x'], ['set:b:y', 'set:a:x'], ['set:b:y', 'set:c:z', 'set:a:x'],
+                ['~set:%s:%s' % (kn(3 * i + 1), kn(5000 + i)) for i in range(40)]]
+    for pre in prefixes:
+        for what in ('get_keys_into', 'get_values_into', 'get_pairs_into'):
+            for c in 'ALD':
+                out.append(pre + ['%s:%s:%d' % (what, c, n) for n in RECEIVING])
+    return out
 
 
 MAP_SYMBOLS = ['set:a:x', 'set:a:y', 'set:b:x', 'set:c:z', 'remove:a', 'remove:b', 'remove:c', 'get:a', 'has_value:x',
                'mutk:c', 'delv']
 # second alphabet: the composites
 MAP_SYMBOLS2 = ['set:a:x', 'set:b:y', 'set_pair:a:w', 'set_pair:c:x', 'set_own:a', 'set_own:b', 'set_ownpair:a', 'set_ownkey:a:z',
-                'get_ownkey:b', 'remove_ownkey:a', 'has_value_own:b', 'remove:b', 'get_keys_into:A', 'get_pairs_into:L', 'fork', 'swap']
+                'get_ownkey:b', 'remove_ownkey:a', 'has_value_own:b', 'remove:b', 'get_keys_into:A:2', 'get_pairs_into:L:3', 'fork', 'swap']
 
 
 def map_exhaustive(depth, symbols=MAP_SYMBOLS):
@@ -704,7 +963,8 @@ def map_sized(sizes, rng, all_positions=True):
         top = kn(2 * n + 3)
         probes += ['set:%s:new' % top, 'get:' + top, 'remove:' + top, 'set:%s:new' % kn(0), 'remove:' + kn(0), 'has_value:new',
                    'has_value:' + kn(2 * n + 7000), 'fork;set:%s:new;swap;remove:%s' % (kn(2), kn(2 * n)), 'get_pairs', 'iterate',
-                   'get_keys_into:D', 'get_values_into:A', 'get_pairs_into:L']
+                   'get_keys_into:D', 'get_values_into:A', 'get_pairs_into:L', 'get_keys_into:L:2', 'get_values_into:D:3', 'get_pairs_into:A:5',
+                   'get_pairs_into:L:2;get_values_into:L:5;get_keys_into:D:0']
         for k, pr in enumerate(probes):
             out.append(builds[k % 3] + pr.split(';'))
     return out
